@@ -9,6 +9,7 @@ REG = {
     "C01": ("vf.checks.ode_props", "C01"), "C02": ("vf.checks.ode_props", "C02"),
     "C03": ("vf.checks.ode_props", "C03"), "C04": ("vf.checks.ode_props", "C04"),
     "C19": ("vf.checks.c19", "C19"),
+    "C15": ("vf.checks.chx_props", "C15"),
     "C05": ("vf.checks.rates_props", "C05"), "C06": ("vf.checks.rates_props", "C06"),
 }
 
@@ -26,7 +27,7 @@ def main():
     mod, arg = REG[pid]
     try:
         m = importlib.import_module(mod)
-        return m.main(arg, tier)
+        return (m.run if hasattr(m, "run") else m.main)(arg, tier)
     except Exception:
         traceback.print_exc()
         return EXIT_HARNESS
